@@ -66,7 +66,7 @@ FirstRoot(i, parts) ==
 
 \* ---- the loader ----------------------------------------------------------------
 Resolve ==
-  LET parts == WithExt(Parts(segs)) IN
+  LET parts == WithExt(Parts(IF lead = "~/" THEN <<"~">> \o segs ELSE segs)) IN
   IF lead = "@ROOT@/" THEN
        \* an absolute name: the design refuses it; as found, the join discarded the search path
        (IF "AbsoluteJoin" \in Dev THEN ServeFrom(<<>>, parts) ELSE NotFound)
@@ -81,7 +81,8 @@ Roots1 == << <<"r1">> >>
 Roots2 == << <<"r1">>, <<"r2">> >>
 
 \* ---- enumeration ----------------------------------------------------------------
-Init == lead \in {"", "/", "@ROOT@/"} /\ segs = <<>>
+\* ("~/": to the loaders "~" is a directory name like any other - nobody's home directory)
+Init == lead \in {"", "/", "@ROOT@/", "~/"} /\ segs = <<>>
 Next == Len(segs) < MaxSeg /\ \E s \in Segs : segs' = Append(segs, s) /\ UNCHANGED lead
 
 \* C13: whatever the name, what is served is a file inside one of the search paths
